@@ -434,7 +434,7 @@ func RunCheck(o CheckOpts) int {
 	assum = append(assum,
 		"tool chain: go/packages, go/types, go/ssa (x/tools v0.29.0) give a faithful SSA of the source; z3/cvc5 are sound for unsat; the VC generator govc itself",
 		"integers are mathematical (no wrap-around); float64 is modelled as exact reals (no rounding, no NaN/Inf)",
-		"strings are an uninterpreted sort with length/concat axioms (length of a concatenation, substring and byte-at over a concatenation, left cancellation a++b = a++c => b = c, the leading decimal of itoa(n)++t is n when t does not start with a digit); distinct literals are distinct; per VC: length and first byte of each literal, litA++litB = litAB and literal prefixes as ground facts",
+		"strings are an uninterpreted sort with length/concat axioms (length of a concatenation, substring and byte-at over a concatenation, left cancellation a++b = a++c => b = c, the leading decimal of itoa(n)++t is n when t does not start with a digit); distinct literals are distinct; per VC: length and first byte of each literal, litA++litB = litAB (and, for path prefixes ending in a slash, its associativity instance litA++(litB++x) = litAB++x) and literal prefixes as ground facts",
 		"no allocation failure or stack exhaustion; single-threaded execution within one call",
 		"fresh memory is zero and unreachable from pre-existing objects (allocation counter model)")
 	var fnNames []string
